@@ -17,7 +17,7 @@ from ..run import hyp_run
 
 ID = 'C18'
 LEVEL = 'exploration'
-BUDGET_S = {'quick': 150, 'thorough': 1500}
+BUDGET_S = {'quick': 300, 'thorough': 1500}
 RULE = ('one workbook per case; every planted coordinate, its eight neighbours, the corners of the used range and a sample of blank '
         'coordinates are queried through Executor.get_cell (class object and file-loaded class); get_titles / get_sheets_size '
         'are compared with the model; a case = one queried coordinate or one size/title comparison; non-trivial = the sheet has an '
